@@ -286,7 +286,9 @@ Definition do_call (s : wst) (c : call) : res unit * wst :=
   | CEnd => end_step s
   | _ => lift s
   match c with
-  | CInit inc => Ok (mkW [] [] [] (if inc then 0 else -1) (out s) (terms s) (elems s) (tatoms s) (f_atom s) (f_term s) (f_elem s))
+  (* initProgram: data_->reset() and (since the repair 537d726) theory_.reset(): everything but the bytes already written starts afresh,
+     so a writer used for a second program behaves like a new one *)
+  | CInit inc => Ok (mkW [] [] [] (if inc then 0 else -1) (out s) [] [] [] 0 0 0)
   | CBegin => Ok (begin_step s)
   | CEnd => Ok s
   | CRule ht h b => Ok (push s (DRule ht h (WNormal b)))
